@@ -327,6 +327,20 @@ func genC15(t *rapid.T, p *gen.Profile) *C15Case {
 	if len(ws.Files) > 2 && rapid.Bool().Draw(t, "open3") {
 		c.Open = append(c.Open, 2)
 	}
+	if len(ws.Files) >= 4 && rapid.Bool().Draw(t, "samebase") {
+		// two open documents with the same file name in different directories: nothing that is listed
+		// per document may be ordered by the file name alone
+		old, neu := ws.Files[3].Rel, "sub/a.journal"
+		for i := range ws.Files {
+			for k := range ws.Files[i].Journal.Entries {
+				if d := ws.Files[i].Journal.Entries[k].Dir; d != nil && d.Kind == "include" && d.Path == gen.RelFrom(ws.Files[i].Rel, old) {
+					d.Path = gen.RelFrom(ws.Files[i].Rel, neu)
+				}
+			}
+		}
+		ws.Files[3].Rel = neu
+		c.Open = append(c.Open, 3)
+	}
 	c.Staged = rapid.IntRange(0, 2).Draw(t, "staged") == 0
 	c.Restored = !c.Staged && rapid.IntRange(0, 1).Draw(t, "restored") == 0
 	return c
@@ -343,7 +357,7 @@ func TestC15(t *testing.T) {
 	rapid.Check(t, func(t *rapid.T) {
 		c := genC15(t, profileFor(recC15))
 		ds, digest, n := c15Check(c, c15Repeats())
-		recC15.Case(true, mustJSON(c), fmt.Sprintf("root:%v", c.Root), fmt.Sprintf("open:%d", len(c.Open)), fmt.Sprintf("history:staged=%v,restored=%v", c.Staged, c.Restored),
+		recC15.Case(true, mustJSON(c), fmt.Sprintf("root:%v", c.Root), fmt.Sprintf("open:%d", len(c.Open)), fmt.Sprintf("open-documents-with-equal-file-names:%v", len(c.WS.Files) >= 4 && c.WS.Files[3].Rel == "sub/a.journal"), fmt.Sprintf("history:staged=%v,restored=%v", c.Staged, c.Restored),
 			fmt.Sprintf("nested-include-before-sibling:%v", len(c.WS.Includes) == 4 && len(c.WS.Includes[0]) == 2 && len(c.WS.Includes[1]) == 1 && c.WS.Includes[1][0] == 3))
 		recC15.Count("answers_compared", int64(n*c15Repeats()))
 		if recC15.WantSample() {
